@@ -2,6 +2,7 @@ package props
 
 import (
 	"fmt"
+	"go/token"
 	"go/types"
 	"math/big"
 	"reflect"
@@ -679,6 +680,52 @@ func cursorAdvance(c *an.Ctx, fn *ssa.Function) {
 		for _, in := range e.Instr.Block().Instrs {
 			if bo, ok := in.(*ssa.BinOp); ok && fi.Term(bo).Key() == want {
 				found = true
+			}
+		}
+		// a cursor that is the sum of an outer position and a local running offset (dst := b[i:]; n := 32; ...
+		// dst[n:]; n += 8): the local offset advances by the width
+		if !found && cursor.K == an.KBin && cursor.S == "+" {
+			for _, part := range cursor.A {
+				if part.K != an.KPhi {
+					continue
+				}
+				w2 := an.NormBin("+", part, an.ConstTerm(fmt.Sprint(e.Width))).Key()
+				for _, in := range e.Instr.Block().Instrs {
+					if bo, ok := in.(*ssa.BinOp); ok && fi.Term(bo).Key() == w2 {
+						found = true
+					}
+				}
+			}
+		}
+		// the local offset starts behind this field: the next cursor is this one plus a running offset whose initial
+		// value is the width (copy(dst, key[:]); n := 32)
+		if !found {
+			var next *an.Term
+			nextPos := token.NoPos
+			for _, e2 := range p.CodecEvents(fn) {
+				if e2.Pos <= e.Pos || e2.Off != "" || e2.Width <= 0 || (nextPos != token.NoPos && e2.Pos >= nextPos) {
+					continue
+				}
+				if call, ok := e2.Instr.(*ssa.Call); ok {
+					for _, a := range call.Call.Args {
+						if t := fi.Term(a); t.K == an.KSlice {
+							next, nextPos = t.A[1], e2.Pos
+						}
+					}
+				}
+			}
+			if next != nil && next.K == an.KBin && next.S == "+" && len(next.A) == 2 {
+				for k := 0; k < 2; k++ {
+					ph, isPhi := next.A[k].Val.(*ssa.Phi)
+					if next.A[1-k].Key() != cursor.Key() || next.A[k].K != an.KPhi || !isPhi {
+						continue
+					}
+					for _, ev := range ph.Edges {
+						if cv, isC := fi.Term(ev).IsConst(); isC && cv == fmt.Sprint(e.Width) {
+							found = true
+						}
+					}
+				}
 			}
 		}
 		// the last field of a record needs no advance if nothing follows
